@@ -129,6 +129,9 @@ def case_spec(draw, algo=None):
         p["frame"] = "otr"
         sel = draw(st.lists(st.sampled_from(aliases + uni), min_size=0, max_size=4, unique=True))
         spec["prior_selected"] = sel
+    # what an earlier algo leaves in temp['selected'] is a list (most algos) or a pandas Index (SelectAll(include_no_data=True) hands over the
+    # universe's columns)
+    spec["prior_as"] = draw(st.sampled_from(["list", "list", "index"]))
     return spec
 
 
@@ -200,6 +203,8 @@ def case_select(ctx, spec):
     strat.perm = {}
     if "prior_selected" in spec:
         strat.temp["selected"] = list(spec["prior_selected"])
+        if spec.get("prior_as") == "index":
+            strat.temp["selected"] = pd.Index(spec["prior_selected"], dtype=object)
     if "stat" in spec:
         strat.temp["stat"] = pd.Series({k: (np.nan if v is None else v) for k, v in spec["stat"].items()}, dtype=float)
     prior = spec.get("prior_selected")
